@@ -552,7 +552,10 @@ class TBRMatchedMarkets:
         max_treatment_size = n_treatment - 1
       treatment_geos_range = (1, max_treatment_size)
     else:
-      max_treatment_size = treatment_geos_range[1]
+      # No treatment group can be larger than the number of geos eligible for
+      # treatment: steps beyond that size would only repeat the last group.
+      max_treatment_size = min(treatment_geos_range[1],
+                               len(self.geo_assignments.t))
 
     if control_geos_range is None:
       n_control = len(self.geo_assignments.c)
